@@ -10,7 +10,7 @@ HERE = os.path.dirname(os.path.dirname(os.path.abspath(__file__)))
 CHECKS = {
     "C03": ("exploration",
             "runtime monitor on Evaluator.evaluate_individual (yield observed vs. per-class verdicts) over an exhaustively enumerated (h,r,order) grid + end-to-end fuzz runs",
-            "Every (h, r) in [0..12]^2 (quick) / [0..16]^2 (thorough) x declaration orders is executed against the real evaluator with a tree that satisfies all constraints by construction; the run must yield it. The online accept-monitor additionally watches every organic evaluation of the end-to-end runs. Finite grid enumerated completely; beyond the grid only what was observed.",
+            "Every (h, r) in [0..12]^2 (quick) / [0..16]^2 (thorough) x declaration orders is executed against the real evaluator with a tree that satisfies all constraints by construction; the run must yield it. The online accept-monitor additionally watches every organic evaluation of the end-to-end runs. A second grid family cycles its constraints through every constraint form (comparisons with and without matches, expressions, both quantifier styles, and/or). Finite grid enumerated completely; beyond the grid only what was observed.",
             "Trusts: CPython float arithmetic; the construction of the satisfying tree (parse of a satisfying word); for the online monitor, the evaluator's own per-class verdicts.",
             "DESIGN.md §2 C03"),
 }
@@ -23,7 +23,7 @@ CHECKS.update({
             "DESIGN.md §2 C01"),
     "C04": ("exploration",
             "runtime oracle on every tree yielded by parse / parse_forest / Fandango.parse: reference derivation checker, reference serialisation == input, reference recogniser; inputs include near misses; request histories on one object",
-            "Soundness is judged per yielded tree (no reference forest needed, ambiguity cannot alarm). Inputs: reference-language words, fuzzed words, near misses (deletions, insertions, case variants, neighbouring code points), noise, other start symbols; per input the order of first-tree / forest / prefix-mode-then-complete requests on the shared object varies; API level with one to three word-level constraints whose truth the harness computes from the input.",
+            "Soundness is judged per yielded tree (no reference forest needed, ambiguity cannot alarm). Grammars incl. bit grammars whose words are not whole bytes. Inputs: reference-language words, fuzzed words, near misses (deletions, insertions, case variants, neighbouring code points), noise, other start symbols; per input the order of first-tree / forest / prefix-mode-then-complete requests on the shared object varies; API level with one to three word-level constraints whose truth the harness computes from the input.",
             "Trusts the reference model; abstains on the Latin-1/UTF-8 reading of text terminals inside binary grammars (C05/C09 decide that).",
             "DESIGN.md §2 C04"),
     "C05": ("exploration",
@@ -55,7 +55,7 @@ CHECKS.update({
             "ParserDerivationTree internals are not walked; hash collisions only where they occur.",
             "DESIGN.md §2 C10"),
     "C12": ("exploration",
-            "history checker: random histories of parse-type requests (first tree, full / abandoned forests, modes, start symbols, include_controlflow, API parse, interleaved fuzz runs, in-place edits of returned trees) on one spec object, each result compared with the same request on a fresh spec object",
+            "history checker: random histories of parse-type requests (first tree, full / abandoned forests, modes, start symbols, include_controlflow, API parse, interleaved fuzz runs, in-place edits of returned trees) on one spec object - incl. fragment parses hooked into a context tree and the same inputs as text and as bytes - each result compared with the same request on a fresh spec object",
             "Results are compared as sequences of canonical dumps (repetition tags up to renaming of iteration numbers).",
             "A fresh object built from the same text is the reference.",
             "DESIGN.md §2 C12"),
@@ -116,11 +116,11 @@ CHECKS.update({
             "DESIGN.md §2 C17"),
     "C18": ("exploration",
             "paired executions: B alone in a fresh process vs. B after activity on other spec objects A in the same process; event logs compared; global-limit trace recorded; counterfactual attribution by resetting the suspected global before B",
-            "A: hard-to-solve specs that drive the adaptive tuner, computed repetitions, generators, parsing; B: open-ended and bounded repetitions, constrained specs, parse-only usage; chains of up to three A instances, which also parse B's own inputs; protocol-mode pairs whose specs define party classes with equal or different names.",
+            "A: hard-to-solve specs that drive the adaptive tuner, computed repetitions, generators, parsing; B: open-ended and bounded repetitions, constrained specs, parse-only usage; chains of up to three A instances, which also parse B's own inputs; the same spec text loaded with other options; file specs in different directories including same-named files; protocol-mode pairs whose specs define party classes with equal or different names.",
             "B passes random_seed itself.",
             "DESIGN.md §2 C18"),
     "C19": ("exploration",
-            "exhaustive (depth-bounded, fan-out sampled) walk of reachable message histories through the real PacketForecaster with every mounting path; options and completeness compared with a Brzozowski-derivative automaton of the grammar's node objects after init_io / slice_parties; histories produced by prefix-mode parsing of message texts (party annotations from the parse); single-branch chains past repetition bounds with a lowered cap; counterfactual / lenient-automaton attribution",
+            "exhaustive (depth-bounded, fan-out sampled) walk of reachable message histories through the real PacketForecaster with every mounting path; options and completeness compared with a Brzozowski-derivative automaton built from the UNSLICED grammar's node objects, sliced by the reference itself according to the route taken (party list: by sender; init_io: messages between uncontrolled parties); histories produced by prefix-mode parsing of message texts (party annotations from the parse); single-branch chains past repetition bounds with a lowered cap; counterfactual / lenient-automaton attribution",
             "Generated protocol grammars (alternatives, options, all repetition forms, nesting, reused messages, message types shared between recipients/senders, 2-4 parties, external parties, slices) + tests/resources/forecaster.fan.",
             "Recursive protocol grammars and nullable bodies under repetitions are not generated.",
             "DESIGN.md §2 C19"),
@@ -129,7 +129,7 @@ CHECKS.update({
 CHECKS.update({
     "C20": ("fault_enumeration",
             "offline checkers over a recorded event log (one lock, one sequence number around the real FandangoIO.transmit / add_receive / clear_by_party / reset_parties) plus the yielded interaction tree: prefix validity (message automaton + derivation checker), attribution, per-channel conservation (delivered = consumed in order + buffered), every consumption is exactly one message of that sender, exactly-once transmission, constraints on sent messages, no misbehaving remote message accepted",
-            "In-process protocol runs against a scripted peer (threads): valid / wrong type / constraint-violating / truncated / silent / unsolicited replies, random fragmentations with injected delays, one or two concurrently answering external parties, back-to-back messages in one chunk, text and binary messages.",
+            "In-process protocol runs against a scripted peer (threads): valid / wrong type / constraint-violating / truncated / silent / unsolicited replies, random fragmentations with injected delays, one or two concurrently answering external parties, back-to-back messages in one chunk, a fandango message that must echo a recorded remote one, text and binary messages.",
             "The peer lives in the same process; a run ended by the harness watchdog is inconclusive.",
             "DESIGN.md §2 C20"),
 })
